@@ -57,6 +57,8 @@ impl Scheduler {
                     return false;
                 }
             }
+            #[cfg(feature = "verif")]
+            crate::verif::inflight_dec();
         }
 
         true
